@@ -308,7 +308,11 @@ class PrivatePart(Part):
     def cases(self):
         return [{"salt": s, "B": B, "extra": extra, "prefixes": pref}
                 for s in ("saltForTest", "seed%d" % self.seed) for B in (0, 8)
-                for extra in (None, "200.7.6.0/24", "12.34.0.0/16,10.1.2.3")
+                for extra in (None, "200.7.6.0/24", "12.34.0.0/16,10.1.2.3",
+                              # the same network listed twice: equal to a private block, repeated, in another
+                              # spelling, a host with and without /32, a block and its own sub-block
+                              "10.0.0.0/8", "1.2.3.0/24,1.2.3.0/255.255.255.0", "11.11.11.11,11.11.11.11/32",
+                              "192.168.0.0/16,151.64.0.0/10,151.64.0.0/10", "151.64.0.0/10,151.65.0.0/16")
                 for pref in (None, "0.0.0.0/1,128.0.0.0/2", "200.0.0.0/5")]
 
     def run(self, cfg):
